@@ -1,4 +1,6 @@
 import WildModel.Lemmas.C14Sem
+import WildModel.Lemmas.C14Tls
+import WildModel.Lemmas.C14Bounds
 /-!
 C14 - x86-64 GOT (and IE->LE TLS) relaxations preserve instruction semantics: the property theorems.
 Semantic core and head-decoding tables: `WildModel/Lemmas/C14Sem.lean`.
@@ -11,6 +13,7 @@ symbol value `S` passing the NEW type's range check the original instruction (fi
 the rewritten instruction (field = new formula) have the same effect (destination register and
 value, arithmetic flags, transfer target, return address).
 -/
+set_option linter.unusedSimpArgs false
 namespace Wild.C14
 open Wild.X86Relax Wild.X86Sem
 
@@ -131,5 +134,808 @@ theorem rex_abs_r32_unsound_witness :
   intro h
   have := h ⟨fun _ => 0, fun _ => 0x80000000#64, 0, 0⟩ 0x80000000#64 0x1000#64 (by unfold fitsS32 place; decide) (by unfold fitsU32; decide) rfl
   simp [exec, writeSz, sext32, gotField, place] at this
+
+/-! ### PC-relative rewrites (`lea`, `call`, `jmp`): R_X86_64_PC32, value `S + A - P'` with the kept addend -4 -/
+
+/-- The observable equivalence demanded by the property, for a PC-relative rewrite: original head of
+`hlen` bytes + field `G - 4 - P`; rewritten head of `hlen'` bytes + field `S - 4 - P'`. -/
+def PcEquiv (f f' : Form) (hlen hlen' : Nat) : Prop :=
+  ∀ (σ : State) (S GOT : BitVec 64), fitsS32 (GOT - 4#64 - place σ hlen) → fitsS32 (S - 4#64 - place σ hlen') →
+    σ.mem GOT = S → exec f hlen (gotField σ hlen GOT) σ = exec f' hlen' (pcField σ hlen' S) σ
+
+/-- Equivalence for the 32-bit `mov` -> `mov $imm32` rewrite: holds for EVERY `S` (so in particular for
+every `S` that passes the `[0, 2^32)` check of the new type R_X86_64_32). -/
+def Abs32Equiv (f f' : Form) (hlen : Nat) : Prop :=
+  ∀ (σ : State) (S GOT : BitVec 64), fitsS32 (GOT - 4#64 - place σ hlen) → σ.mem GOT = S →
+    exec f hlen (gotField σ hlen GOT) σ = exec f' hlen (S.truncate 32) σ
+
+theorem dec41 (op m : UInt8) (t : List UInt8) (vf : Nat) (ok : OutKind) (sf : Nat) (r : Relaxation)
+    (h : newRelaxation R_GOTPCRELX (op :: m :: t) 2 vf ok sf = .ok (some r)) :
+    (op = 0x8b ∧ r.kind = .movIndirectToAbsolute ∧ r.rtype = R_32) ∨
+    (op = 0x8b ∧ r.kind = .movIndirectToLea ∧ r.rtype = R_PC32) ∨
+    (op = 0xff ∧ m = 0x15 ∧ r.kind = .callIndirectToRelative ∧ r.rtype = R_PC32) ∨
+    (op = 0xff ∧ m = 0x25 ∧ r.kind = .jmpIndirectToRelative ∧ r.rtype = R_PC32) := by
+  unfold newRelaxation at h
+  simp only [R_GOTPCRELX, R_REX_GOTPCRELX, R_CODE_4_GOTPCRELX, R_PC32] at h
+  split at h
+  · simp at h
+  split at h
+  · simp at h
+  simp [armGotpcrelx, getRange, bind, Except.bind, pure, Except.pure] at h
+  repeat' (split at h)
+  all_goals (simp_all)
+  all_goals (subst h; simp)
+
+/-- `apply` of the two opcode-only rewrites on a 2-byte head at offset 2. -/
+theorem app41_lea (op m : UInt8) (t : List UInt8) (ad : Int) :
+    apply .movIndirectToLea (op :: m :: t) 2 ad = .ok ⟨0x8d :: m :: t, 2, ad⟩ := by
+  simp [apply, usub, setIdx, bind, Except.bind, pure, Except.pure]
+
+theorem app41_abs (op m : UInt8) (t : List UInt8) (ad : Int) :
+    apply .movIndirectToAbsolute (op :: m :: t) 2 ad = .ok ⟨0xc7 :: modrmRegToRm m 0xc0 :: t, 2, 0⟩ := by
+  simp [apply, usub, idx, setIdx, bind, Except.bind, pure, Except.pure]
+
+theorem app41_call (op m : UInt8) (t : List UInt8) (ad : Int) :
+    apply .callIndirectToRelative (op :: m :: t) 2 ad = .ok ⟨0x67 :: 0xe8 :: t, 2, ad⟩ := by
+  simp [apply, usub, splice, bind, Except.bind, pure, Except.pure]
+
+theorem app41_jmp (op m a b c d : UInt8) (t : List UInt8) (ad : Int) :
+    apply .jmpIndirectToRelative (op :: m :: a :: b :: c :: d :: t) 2 ad = .ok ⟨0xe9 :: 0 :: 0 :: 0 :: 0 :: 0x90 :: t, 1, ad⟩ := by
+  simp [apply, usub, splice, bind, Except.bind, pure, Except.pure]
+
+/-- legacy `mov sym@GOTPCREL(%rip), %r32` (R_X86_64_GOTPCRELX) -> `mov $sym, %r32` (R_X86_64_32) or
+`lea sym(%rip), %r32` (R_X86_64_PC32), whichever the decision picks. -/
+theorem gotpcrelx_mov_ok (op reg : UInt8) (hreg : reg ∈ regs8) (t : List UInt8) (vf : Nat) (ok : OutKind) (sf : Nat)
+    (r : Relaxation)
+    (hdec : newRelaxation R_GOTPCRELX (op :: ripModrm reg :: t) 2 vf ok sf = .ok (some r))
+    (hkind : r.kind = .movIndirectToAbsolute ∨ r.kind = .movIndirectToLea) :
+    ∃ h0 h1 ad f f',
+      apply r.kind (op :: ripModrm reg :: t) 2 (-4) = .ok ⟨h0 :: h1 :: t, 2, ad⟩ ∧
+      decodeHead [op, ripModrm reg] = some f ∧ decodeHead [h0, h1] = some f' ∧
+      ((r.kind = .movIndirectToAbsolute ∧ r.rtype = R_32 ∧ ad = 0 ∧ Abs32Equiv f f' 2) ∨
+       (r.kind = .movIndirectToLea ∧ r.rtype = R_PC32 ∧ ad = -4 ∧ PcEquiv f f' 2 2)) := by
+  rcases dec41 _ _ _ _ _ _ _ hdec with ⟨hop, hk, hrt⟩ | ⟨hop, hk, hrt⟩ | ⟨hop, hmm, hk, hrt⟩ | ⟨hop, hmm, hk, hrt⟩
+  · subst hop
+    refine ⟨0xc7, modrmRegToRm (ripModrm reg) 0xc0, 0, .movRip .w32 (regNo reg false false),
+      .movImm .w32 (regNo reg false false), ?_, (legacy_heads reg hreg).1, (legacy_heads reg hreg).2.1, .inl ⟨hk, hrt, rfl, ?_⟩⟩
+    · rw [hk, app41_abs]
+    · intro σ S GOT hG hmem; exact abs32_sem _ σ S GOT 2 hG hmem
+  · subst hop
+    refine ⟨0x8d, ripModrm reg, -4, .movRip .w32 (regNo reg false false),
+      .leaRip .w32 (regNo reg false false), ?_, (legacy_heads reg hreg).1, (legacy_heads reg hreg).2.2, .inr ⟨hk, hrt, rfl, ?_⟩⟩
+    · rw [hk, app41_lea]
+    · intro σ S GOT hG hS hmem; exact lea_sem _ _ σ S GOT 2 hG hS hmem
+  · rcases hkind with h | h <;> simp [hk] at h
+  · rcases hkind with h | h <;> simp [hk] at h
+
+/-- `call *sym@GOTPCREL(%rip)` (ff 15; R_X86_64_GOTPCRELX) -> `addr32 call sym` (67 e8; R_X86_64_PC32):
+same target and same return address. -/
+theorem gotpcrelx_call_ok (t : List UInt8) (vf : Nat) (ok : OutKind) (sf : Nat) (r : Relaxation)
+    (hdec : newRelaxation R_GOTPCRELX (0xff :: 0x15 :: t) 2 vf ok sf = .ok (some r)) :
+    r.kind = .callIndirectToRelative ∧ r.rtype = R_PC32 ∧
+    apply r.kind (0xff :: 0x15 :: t) 2 (-4) = .ok ⟨0x67 :: 0xe8 :: t, 2, -4⟩ ∧
+    decodeHead [0xff, 0x15] = some .callRip ∧ decodeHeadCall [0x67, 0xe8] = some .callRel ∧
+    PcEquiv .callRip .callRel 2 2 := by
+  rcases dec41 _ _ _ _ _ _ _ hdec with h | h | h | h
+  · exact absurd h.1 (by decide)
+  · exact absurd h.1 (by decide)
+  · refine ⟨h.2.2.1, h.2.2.2, ?_, branch_heads.1, branch_heads.2.1, ?_⟩
+    · rw [h.2.2.1, app41_call]
+    · intro σ S GOT hG hS hmem; exact call_sem σ S GOT hG hS hmem
+  · exact absurd h.2.1 (by decide)
+
+/-- `jmp *sym@GOTPCREL(%rip)` (ff 25 d32; R_X86_64_GOTPCRELX) -> `jmp sym; nop` (e9 rel32 90;
+R_X86_64_PC32 at offset - 1): same target.  `a b c d` are the four field bytes (`apply` zeroes them,
+the relocation then overwrites them). -/
+theorem gotpcrelx_jmp_ok (a b c d : UInt8) (t : List UInt8) (vf : Nat) (ok : OutKind) (sf : Nat) (r : Relaxation)
+    (hdec : newRelaxation R_GOTPCRELX (0xff :: 0x25 :: a :: b :: c :: d :: t) 2 vf ok sf = .ok (some r)) :
+    r.kind = .jmpIndirectToRelative ∧ r.rtype = R_PC32 ∧
+    apply r.kind (0xff :: 0x25 :: a :: b :: c :: d :: t) 2 (-4) = .ok ⟨0xe9 :: 0 :: 0 :: 0 :: 0 :: 0x90 :: t, 1, -4⟩ ∧
+    decodeHead [0xff, 0x25] = some .jmpRip ∧ decodeHead [0xe9] = some .jmpRel ∧
+    PcEquiv .jmpRip .jmpRel 2 1 := by
+  rcases dec41 _ _ _ _ _ _ _ hdec with h | h | h | h
+  · exact absurd h.1 (by decide)
+  · exact absurd h.1 (by decide)
+  · exact absurd h.2.1 (by decide)
+  · refine ⟨h.2.2.1, h.2.2.2, ?_, branch_heads.2.2.1, branch_heads.2.2.2, ?_⟩
+    · rw [h.2.2.1, app41_jmp]
+    · intro σ S GOT hG hS hmem; exact jmp_sem σ S GOT hG hS hmem
+
+/-- REX.W `mov sym@GOTPCREL(%rip), %r64` -> `lea sym(%rip), %r64` (R_X86_64_REX_GOTPCRELX -> R_X86_64_PC32). -/
+theorem rex_mov_to_lea_ok (rex op reg : UInt8) (hreg : reg ∈ regs8) (t : List UInt8) (vf : Nat) (ok : OutKind) (sf : Nat)
+    (r : Relaxation)
+    (hdec : newRelaxation R_REX_GOTPCRELX (rex :: op :: ripModrm reg :: t) 3 vf ok sf = .ok (some r))
+    (hk : r.kind = .movIndirectToLea) :
+    r.rtype = R_PC32 ∧ ∃ h0 h1 h2 f f',
+      apply r.kind (rex :: op :: ripModrm reg :: t) 3 (-4) = .ok ⟨h0 :: h1 :: h2 :: t, 3, -4⟩ ∧
+      decodeHead [rex, op, ripModrm reg] = some f ∧ decodeHead [h0, h1, h2] = some f' ∧ PcEquiv f f' 3 3 := by
+  obtain ⟨hrex, hc⟩ := dec42 _ _ _ _ _ _ _ _ hdec
+  have hop : op = 0x8b ∧ r.rtype = R_PC32 := by
+    rcases hc with h | h | h | h <;> simp_all
+  obtain ⟨hop, hrt⟩ := hop
+  subst hop
+  refine ⟨hrt, rex, 0x8d, ripModrm reg, .movRip .w64 (regNo reg (tb rex 2) false),
+    .leaRip .w64 (regNo reg (tb rex 2) false), ?_, ?_, ?_, ?_⟩
+  · simp [hk, apply, usub, setIdx, bind, Except.bind, pure, Except.pure]
+  · exact (rex_mov_heads rex (by rcases hrex with h | h <;> simp [h]) reg hreg).1
+  · exact (rex_mov_heads rex (by rcases hrex with h | h <;> simp [h]) reg hreg).2.2
+  · intro σ S GOT hG hS hmem; exact lea_sem _ _ σ S GOT 3 hG hS hmem
+
+/-! ### plain R_X86_64_GOTPCREL: `mov` -> `lea` only -/
+
+theorem mem_allBytes (p : UInt8) : p ∈ allBytes := by
+  unfold allBytes
+  refine List.mem_map.mpr ⟨p.toNat, List.mem_range.mpr p.toNat_lt, ?_⟩
+  simp
+
+theorem dec9_2 (op m : UInt8) (t : List UInt8) (vf : Nat) (ok : OutKind) (sf : Nat) (r : Relaxation)
+    (h : newRelaxation R_GOTPCREL (op :: m :: t) 2 vf ok sf = .ok (some r)) :
+    op = 0x8b ∧ r.kind = .movIndirectToLea ∧ r.rtype = R_PC32 := by
+  unfold newRelaxation at h
+  simp only [R_GOTPCREL, R_GOTPCRELX, R_REX_GOTPCRELX, R_CODE_4_GOTPCRELX, R_PC32] at h
+  split at h
+  · simp at h
+  split at h
+  · simp at h
+  simp [armGotpcrel, pure, Except.pure] at h
+  repeat' (split at h)
+  all_goals (simp_all)
+  all_goals (subst h; simp)
+
+theorem dec9_3 (p op m : UInt8) (t : List UInt8) (vf : Nat) (ok : OutKind) (sf : Nat) (r : Relaxation)
+    (h : newRelaxation R_GOTPCREL (p :: op :: m :: t) 3 vf ok sf = .ok (some r)) :
+    op = 0x8b ∧ r.kind = .movIndirectToLea ∧ r.rtype = R_PC32 := by
+  unfold newRelaxation at h
+  simp only [R_GOTPCREL, R_GOTPCRELX, R_REX_GOTPCRELX, R_CODE_4_GOTPCRELX, R_PC32] at h
+  split at h
+  · simp at h
+  split at h
+  · simp at h
+  simp [armGotpcrel, pure, Except.pure] at h
+  repeat' (split at h)
+  all_goals (simp_all)
+  all_goals (subst h; simp)
+
+/-- `mov sym@GOTPCREL(%rip), %r32` with the plain R_X86_64_GOTPCREL -> `lea sym(%rip), %r32` (R_X86_64_PC32). -/
+theorem gotpcrel_mov_to_lea_ok (op reg : UInt8) (hreg : reg ∈ regs8) (t : List UInt8) (vf : Nat) (ok : OutKind) (sf : Nat)
+    (r : Relaxation)
+    (hdec : newRelaxation R_GOTPCREL (op :: ripModrm reg :: t) 2 vf ok sf = .ok (some r)) :
+    r.kind = .movIndirectToLea ∧ r.rtype = R_PC32 ∧ ∃ f f',
+      apply r.kind (op :: ripModrm reg :: t) 2 (-4) = .ok ⟨0x8d :: ripModrm reg :: t, 2, -4⟩ ∧
+      decodeHead [op, ripModrm reg] = some f ∧ decodeHead [0x8d, ripModrm reg] = some f' ∧ PcEquiv f f' 2 2 := by
+  obtain ⟨hop, hk, hrt⟩ := dec9_2 _ _ _ _ _ _ _ hdec
+  subst hop
+  refine ⟨hk, hrt, .movRip .w32 (regNo reg false false), .leaRip .w32 (regNo reg false false), ?_,
+    (legacy_heads reg hreg).1, (legacy_heads reg hreg).2.2, ?_⟩
+  · rw [hk, app41_lea]
+  · intro σ S GOT hG hS hmem; exact lea_sem _ _ σ S GOT 2 hG hS hmem
+
+/-- plain R_X86_64_GOTPCREL behind ANY single prefix byte `p` (0x66, every REX): whenever the original
+`p 8b /r` is a RIP-relative load of size `sz` into `rr`, the rewritten instruction is `lea` of the same
+size into the same register with the same observable effect. -/
+theorem gotpcrel_prefixed_mov_to_lea_ok (p op reg : UInt8) (hreg : reg ∈ regs8) (t : List UInt8) (vf : Nat) (ok : OutKind)
+    (sf : Nat) (r : Relaxation) (sz : Sz) (rr : Reg)
+    (hdec : newRelaxation R_GOTPCREL (p :: op :: ripModrm reg :: t) 3 vf ok sf = .ok (some r))
+    (horig : decodeHead [p, op, ripModrm reg] = some (.movRip sz rr)) :
+    r.kind = .movIndirectToLea ∧ r.rtype = R_PC32 ∧
+      apply r.kind (p :: op :: ripModrm reg :: t) 3 (-4) = .ok ⟨p :: 0x8d :: ripModrm reg :: t, 3, -4⟩ ∧
+      decodeHead [p, 0x8d, ripModrm reg] = some (.leaRip sz rr) ∧ PcEquiv (.movRip sz rr) (.leaRip sz rr) 3 3 := by
+  obtain ⟨hop, hk, hrt⟩ := dec9_3 _ _ _ _ _ _ _ _ hdec
+  subst hop
+  refine ⟨hk, hrt, ?_, prefixed_lea p reg (mem_allBytes p) hreg sz rr horig, ?_⟩
+  · simp [hk, apply, usub, setIdx, bind, Except.bind, pure, Except.pure]
+  · intro σ S GOT hG hS hmem; exact lea_sem _ _ σ S GOT 3 hG hS hmem
+
+/-! ### APX REX2 (0xd5) forms: R_X86_64_CODE_4_GOTPCRELX -/
+
+theorem dec43 (pl op m : UInt8) (t : List UInt8) (vf : Nat) (ok : OutKind) (sf : Nat) (r : Relaxation)
+    (h : newRelaxation R_CODE_4_GOTPCRELX (0xd5 :: pl :: op :: m :: t) 4 vf ok sf = .ok (some r)) :
+    (pl = 0x48 ∨ pl = 0x4c) ∧
+    ((op = 0x8b ∧ r.kind = .rexMovIndirectToAbsolute 4 ∧ r.rtype = R_32S) ∨
+     (op = 0x2b ∧ r.kind = .rexSubIndirectToAbsolute 4 ∧ r.rtype = R_32S) ∨
+     (op = 0x3b ∧ r.kind = .rexCmpIndirectToAbsolute 4 ∧ r.rtype = R_32S) ∨
+     (op = 0x8b ∧ r.kind = .movIndirectToLea ∧ r.rtype = R_PC32)) := by
+  unfold newRelaxation at h
+  simp only [R_REX_GOTPCRELX, R_CODE_4_GOTPCRELX, R_PC32] at h
+  split at h
+  · simp at h
+  split at h
+  · simp at h
+  simp [armRexGotpcrelx, code4Guard, idx, bind, Except.bind, pure, Except.pure] at h
+  repeat' (split at h)
+  all_goals (simp_all)
+  all_goals (subst_vars; exact ⟨Classical.or_iff_not_imp_left.mpr (by assumption), by simp⟩)
+
+theorem rexToAbs43_ok (pl op m : UInt8) (t : List UInt8) (opc ext : UInt8) (first : Bool) :
+    rexToAbs (0xd5 :: pl :: op :: m :: t) 4 4 opc ext first = .ok (0xd5 :: rex2RtoB pl :: opc :: modrmRegToRm m ext :: t) := by
+  cases first <;> simp [rexToAbs, usub, idx, setIdx, bind, Except.bind, pure, Except.pure]
+
+/-- REX2 `mov/sub/cmp sym@GOTPCREL(%rip), %r16..r31` (R_X86_64_CODE_4_GOTPCRELX): every answer of the
+decision on the aligned window is semantics preserving: immediate forms (R_X86_64_32S) or `lea`
+(R_X86_64_PC32). -/
+theorem rex2_gotpcrelx_ok (pl op reg : UInt8) (hreg : reg ∈ regs8) (t : List UInt8) (vf : Nat) (ok : OutKind) (sf : Nat)
+    (r : Relaxation)
+    (hdec : newRelaxation R_CODE_4_GOTPCRELX (0xd5 :: pl :: op :: ripModrm reg :: t) 4 vf ok sf = .ok (some r)) :
+    ∃ h1 h2 h3 ad f f',
+      apply r.kind (0xd5 :: pl :: op :: ripModrm reg :: t) 4 (-4) = .ok ⟨0xd5 :: h1 :: h2 :: h3 :: t, 4, ad⟩ ∧
+      decodeHead [0xd5, pl, op, ripModrm reg] = some f ∧ decodeHead [0xd5, h1, h2, h3] = some f' ∧
+      ((r.rtype = R_32S ∧ ad = 0 ∧ AbsEquiv f f' 4 0 ∧
+          (r.kind = .rexMovIndirectToAbsolute 4 ∨ r.kind = .rexSubIndirectToAbsolute 4 ∨ r.kind = .rexCmpIndirectToAbsolute 4)) ∨
+       (r.rtype = R_PC32 ∧ ad = -4 ∧ PcEquiv f f' 4 4 ∧ r.kind = .movIndirectToLea)) := by
+  obtain ⟨hpl, hc⟩ := dec43 _ _ _ _ _ _ _ _ hdec
+  have hpl' : pl ∈ [0x48, 0x4c] := by rcases hpl with h | h <;> simp [h]
+  have T := rex2_heads pl hpl' reg hreg
+  have e0 : ∀ S : BitVec 64, S + (0 : BitVec 64) = S := by simp
+  rcases hc with ⟨hop, hk, hrt⟩ | ⟨hop, hk, hrt⟩ | ⟨hop, hk, hrt⟩ | ⟨hop, hk, hrt⟩
+  · subst hop
+    refine ⟨rex2RtoB pl, 0xc7, modrmRegToRm (ripModrm reg) 0xc0, 0, _, _, ?_, T.1, T.2.1, .inl ⟨hrt, rfl, ?_, .inl hk⟩⟩
+    · simp [hk, apply, rexToAbs43_ok, bind, Except.bind, pure, Except.pure]
+    · intro σ S GOT hG hS hmem
+      rw [e0] at hS ⊢
+      exact abs64_sem _ σ S GOT 4 hG hS hmem
+  · subst hop
+    refine ⟨rex2RtoB pl, 0x81, modrmRegToRm (ripModrm reg) 0xe8, 0, _, _, ?_, T.2.2.2.1, T.2.2.2.2.1, .inl ⟨hrt, rfl, ?_, .inr (.inl hk)⟩⟩
+    · simp [hk, apply, rexToAbs43_ok, bind, Except.bind, pure, Except.pure]
+    · intro σ S GOT hG hS hmem
+      rw [e0] at hS ⊢
+      exact alu_sem _ _ σ S GOT 4 hG hS hmem
+  · subst hop
+    refine ⟨rex2RtoB pl, 0x81, modrmRegToRm (ripModrm reg) 0xf8, 0, _, _, ?_, T.2.2.2.2.2.1, T.2.2.2.2.2.2.1, .inl ⟨hrt, rfl, ?_, .inr (.inr hk)⟩⟩
+    · simp [hk, apply, rexToAbs43_ok, bind, Except.bind, pure, Except.pure]
+    · intro σ S GOT hG hS hmem
+      rw [e0] at hS ⊢
+      exact alu_sem _ _ σ S GOT 4 hG hS hmem
+  · subst hop
+    refine ⟨pl, 0x8d, ripModrm reg, -4, _, _, ?_, T.1, T.2.2.1, .inr ⟨hrt, rfl, ?_, hk⟩⟩
+    · simp [hk, apply, usub, setIdx, bind, Except.bind, pure, Except.pure]
+    · intro σ S GOT hG hS hmem; exact lea_sem _ _ σ S GOT 4 hG hS hmem
+
+/-- Non-vacuity of the new end-to-end theorems. -/
+example : newRelaxation R_GOTPCRELX [0xff, 0x25, 0, 0, 0, 0] 2 8 .dynPie 6
+    = .ok (some ⟨.jmpIndirectToRelative, R_PC32, false⟩) := by rfl
+example : newRelaxation R_GOTPCRELX [0xff, 0x15, 0, 0, 0, 0] 2 8 .shared 6
+    = .ok (some ⟨.callIndirectToRelative, R_PC32, false⟩) := by rfl
+example : newRelaxation R_GOTPCRELX [0x8b, 0x05, 0, 0, 0, 0] 2 9 .staticExe 6
+    = .ok (some ⟨.movIndirectToAbsolute, R_32, true⟩) := by rfl
+example : newRelaxation R_CODE_4_GOTPCRELX [0xd5, 0x48, 0x8b, 0x05, 0, 0, 0, 0] 4 8 .dynPie 6
+    = .ok (some ⟨.movIndirectToLea, R_PC32, false⟩) := by rfl
+example : newRelaxation R_GOTPCREL [0x66, 0x8b, 0x05, 0, 0, 0, 0] 3 8 .dynPie 6
+    = .ok (some ⟨.movIndirectToLea, R_PC32, false⟩) := by rfl
+
+/-! ### TLS code sequences -/
+
+/-- the general-dynamic code sequence with arbitrary field bytes and arbitrary following bytes:
+`data16 lea x@tlsgd(%rip),%rdi; data16 data16 rex.W call __tls_get_addr@PLT` -/
+def gdImg (a b c d e f g h : UInt8) (t : List UInt8) : List UInt8 :=
+  0x66 :: 0x48 :: 0x8d :: 0x3d :: a :: b :: c :: d :: 0x66 :: 0x66 :: 0x48 :: 0xe8 :: e :: f :: g :: h :: t
+
+theorem identify_gdImg (a b c d e f g h : UInt8) (t : List UInt8) :
+    identifyTlsGd (gdImg a b c d e f g h t) 4 = .ok (some .regular) := by
+  simp [gdImg, identifyTlsGd, getRange, pure, Except.pure]
+
+theorem dec19 (a b c d e f g h : UInt8) (t : List UInt8) (vf : Nat) (ok : OutKind) (sf : Nat) (r : Relaxation)
+    (hd : newRelaxation R_TLSGD (gdImg a b c d e f g h t) 4 vf ok sf = .ok (some r)) :
+    (r.kind = .tlsGdToLocalExec ∧ r.rtype = R_TPOFF32) ∨ (r.kind = .tlsGdToInitialExec ∧ r.rtype = R_GOTTPOFF) := by
+  have hlen : (gdImg a b c d e f g h t).length = t.length + 16 := by simp [gdImg]
+  by_cases hi : vfIfunc vf = true
+  · simp [newRelaxation, hi, R_TLSGD, R_PC32] at hd
+  by_cases hs : sfExec sf = false
+  · simp [newRelaxation, hi, hs] at hd
+  replace hd : armTlsGd (mkCfg vf ok) (gdImg a b c d e f g h t) 4 = .ok (some r) := by
+    rw [← hd]
+    simp [newRelaxation, hi, hs, hlen, R_TLSGD, R_GOTPCREL, R_GOTPCRELX, R_REX_GOTPCRELX, R_CODE_4_GOTPCRELX, R_PC32, R_GOTTPOFF,
+      R_CODE_4_GOTTPOFF, R_CODE_6_GOTTPOFF, R_PLT32, R_PLTOFF64]
+    omega
+  simp [armTlsGd, identify_gdImg, bind, Except.bind, pure, Except.pure] at hd
+  repeat' (split at hd)
+  all_goals (simp_all)
+  all_goals (subst hd; simp)
+
+theorem app_gd_le (a b c d e f g h : UInt8) (t : List UInt8) (ad : Int) :
+    apply .tlsGdToLocalExec (gdImg a b c d e f g h t) 4 ad =
+      .ok ⟨0x64 :: 0x48 :: 0x8b :: 0x04 :: 0x25 :: 0 :: 0 :: 0 :: 0 :: 0x48 :: 0x8d :: 0x80 :: e :: f :: g :: h :: t, 12, 0⟩ := by
+  simp [gdImg, apply, usub, splice, bind, Except.bind, pure, Except.pure]
+
+theorem app_gd_ie (a b c d e f g h : UInt8) (t : List UInt8) (ad : Int) :
+    apply .tlsGdToInitialExec (gdImg a b c d e f g h t) 4 ad =
+      .ok ⟨0x64 :: 0x48 :: 0x8b :: 0x04 :: 0x25 :: 0 :: 0 :: 0 :: 0 :: 0x48 :: 0x03 :: 0x05 :: e :: f :: g :: h :: t, 12, ad⟩ := by
+  simp [gdImg, apply, usub, splice, bind, Except.bind, pure, Except.pure]
+
+/-- TLS general dynamic -> local exec (`TlsGdToLocalExec`, R_X86_64_TLSGD -> R_X86_64_TPOFF32 at
+offset + 8, next relocation (the PLT32 of the call) skipped).
+
+Original code after relocation: field at 4 = `G + A - P` (A = -4, G = address of the `tls_index` GOT pair
+of `x`), field at 12 = `L + A - P` (L = `__tls_get_addr`).  Rewritten code after relocation: field at 12 =
+`S + 0 - tpStart` (R_X86_64_TPOFF32, signed 32-bit check).
+Hypotheses: `%fs:0` holds the thread pointer TP (`hfs`); the GOT pair holds {module `σ.mem G`, offset
+`S - tlsStart`} (`hoff`); that module is the executable's own, whose TLS block lies directly below TP
+(variant II: `tlsBase = TP - (tpStart - tlsStart)`, `hII`).  Conclusion: both sequences run to
+completion, continue at the same address, and agree on `%rax`, all callee-saved registers and memory. -/
+theorem tls_gd_to_le_ok (a b c d e' f g h : UInt8) (t : List UInt8) (vf : Nat) (ok : OutKind) (sf : Nat) (r : Relaxation)
+    (hdec : newRelaxation R_TLSGD (gdImg a b c d e' f g h t) 4 vf ok sf = .ok (some r))
+    (hk : r.kind = .tlsGdToLocalExec) :
+    r.rtype = R_TPOFF32 ∧ skipNext r.kind = true ∧ ∃ new,
+      apply r.kind (gdImg a b c d e' f g h t) 4 (-4) = .ok ⟨new, 12, 0⟩ ∧
+      ∀ (e : TlsEnv) (σ : State) (G S tlsStart tpStart : BitVec 64),
+        σ.mem σ.fsBase = σ.fsBase →
+        σ.mem (G + 8#64) = S - tlsStart →
+        e.tlsBase (σ.mem G) = σ.fsBase - (tpStart - tlsStart) →
+        fitsS32 (G - 4#64 - (σ.rip + 4#64)) →
+        fitsS32 (e.getAddr - 4#64 - (σ.rip + 12#64)) →
+        fitsS32 (S + 0#64 - tpStart) →
+        ∃ σ₁ σ₂,
+          runSeq e 2 (patch32 (patch32 (gdImg a b c d e' f g h t) 4 ((G - 4#64 - (σ.rip + 4#64)).truncate 32)) 12
+                        ((e.getAddr - 4#64 - (σ.rip + 12#64)).truncate 32)) σ = some σ₁ ∧
+          runSeq e 2 (patch32 new 12 ((S + 0#64 - tpStart).truncate 32)) σ = some σ₂ ∧
+          ObsEq σ₁ σ₂ := by
+  have hrt : r.rtype = R_TPOFF32 := by
+    rcases dec19 _ _ _ _ _ _ _ _ _ _ _ _ _ hdec with h | h
+    · exact h.2
+    · rw [hk] at h; simp at h
+  refine ⟨hrt, by rw [hk]; rfl, _, by rw [hk, app_gd_le], ?_⟩
+  intro e σ G S tlsStart tpStart hfs hoff hII hG hcall hS
+  rw [BitVec.add_zero] at hS ⊢
+  exact gd_le_sem e σ t G S tlsStart tpStart hfs hoff hII hG hcall hS
+
+theorem dec_add_rax (v : BitVec 32) (t : List UInt8) :
+    decodeIns (0x48 :: 0x03 :: 0x05 :: (bytes32 v ++ t)) = some (.addRip 0 v, 7) := by
+  simp +decide [decodeIns, legacyPfx, decodeOpc, take32_bytes32]
+
+theorem dec_lea_rdi3 (v : BitVec 32) (t : List UInt8) :
+    decodeIns (0x48 :: 0x8d :: 0x3d :: (bytes32 v ++ t)) = some (.leaRip 7 v, 7) := by
+  simp +decide [decodeIns, legacyPfx, decodeOpc, take32_bytes32]
+
+theorem dec_call (v : BitVec 32) (t : List UInt8) :
+    decodeIns (0xe8 :: (bytes32 v ++ t)) = some (.callRel v, 5) := by
+  simp +decide [decodeIns, legacyPfx, decodeOpc, take32_bytes32]
+
+theorem dec_call_rip (v : BitVec 32) (t : List UInt8) :
+    decodeIns (0xff :: 0x15 :: (bytes32 v ++ t)) = some (.callRip v, 6) := by
+  simp +decide [decodeIns, legacyPfx, decodeOpc, take32_bytes32]
+
+theorem dec_mov_fs0_p3 (t : List UInt8) :
+    decodeIns (0x66 :: 0x66 :: 0x66 :: 0x64 :: 0x48 :: 0x8b :: 0x04 :: 0x25 :: 0 :: 0 :: 0 :: 0 :: t) = some (.movFs 0 0#32, 12) := by
+  simp +decide [decodeIns, legacyPfx, decodeOpc, take32, le32]
+
+theorem dec_mov_fs0_p4 (t : List UInt8) :
+    decodeIns (0x66 :: 0x66 :: 0x66 :: 0x66 :: 0x64 :: 0x48 :: 0x8b :: 0x04 :: 0x25 :: 0 :: 0 :: 0 :: 0 :: t) = some (.movFs 0 0#32, 13) := by
+  simp +decide [decodeIns, legacyPfx, decodeOpc, take32, le32]
+
+/-- GD -> IE, semantic core. `GT` = address of the GOT slot holding the run-time TP offset of `x`. -/
+theorem gd_ie_sem (e : TlsEnv) (σ : State) (t : List UInt8) (G GT : BitVec 64)
+    (hfs : σ.mem σ.fsBase = σ.fsBase)
+    (hie : e.tlsBase (σ.mem G) + σ.mem (G + 8#64) = σ.fsBase + σ.mem GT)
+    (hG : fitsS32 (G - 4#64 - (σ.rip + 4#64)))
+    (hcall : fitsS32 (e.getAddr - 4#64 - (σ.rip + 12#64)))
+    (hGT : fitsS32 (GT - 4#64 - (σ.rip + 12#64))) :
+    ∃ σ₁ σ₂,
+      runSeq e 2 (0x66 :: 0x48 :: 0x8d :: 0x3d :: (bytes32 ((G - 4#64 - (σ.rip + 4#64)).truncate 32) ++
+                  0x66 :: 0x66 :: 0x48 :: 0xe8 :: (bytes32 ((e.getAddr - 4#64 - (σ.rip + 12#64)).truncate 32) ++ t))) σ = some σ₁ ∧
+      runSeq e 2 (0x64 :: 0x48 :: 0x8b :: 0x04 :: 0x25 :: 0 :: 0 :: 0 :: 0 :: 0x48 :: 0x03 :: 0x05 ::
+                  (bytes32 ((GT - 4#64 - (σ.rip + 12#64)).truncate 32) ++ t)) σ = some σ₂ ∧
+      ObsEq σ₁ σ₂ := by
+  have h1 : σ.rip + 8#64 + sext32 ((G - 4#64 - (σ.rip + 4#64)).truncate 32) = G := by
+    have := rel_ea _ _ hG; unfold sext32 at *; bv_decide
+  have h2 : σ.rip + 8#64 + 8#64 + sext32 ((e.getAddr - 4#64 - (σ.rip + 12#64)).truncate 32) = e.getAddr := by
+    have := rel_ea _ _ hcall; unfold sext32 at *; bv_decide
+  have h3 : σ.rip + 9#64 + 7#64 + sext32 ((GT - 4#64 - (σ.rip + 12#64)).truncate 32) = GT := by
+    have := rel_ea _ _ hGT; unfold sext32 at *; bv_decide
+  simp [runSeq, dec_lea_rdi, dec_call66, dec_mov_fs0, dec_add_rax, stepIns, drop_bytes32, setReg, h1, h2, h3, tlsGetAddr]
+  have hz : sext32 0#32 = 0#64 := by decide
+  refine ⟨by bv_decide, rfl, rfl, ?_, ?_⟩
+  · simp only [if_true, hz, BitVec.add_zero, hfs, hie]
+  · intro r hr
+    obtain ⟨h0, h7⟩ := volatile_false_ne r hr
+    simp [h0, h7, hr]
+
+/-- TLS general dynamic -> initial exec (`TlsGdToInitialExec`, R_X86_64_TLSGD -> R_X86_64_GOTTPOFF at
+offset + 8 with the addend -4 kept, next relocation skipped): `mov %fs:0,%rax; add x@gottpoff(%rip),%rax`.
+`GT` is the GOT slot the dynamic loader fills with the TP offset of `x` (R_X86_64_TPOFF64); `hie` says
+that slot is consistent with the module/offset pair `__tls_get_addr` would have used (x lives in the
+static TLS area, which is what the IE model requires). -/
+theorem tls_gd_to_ie_ok (a b c d e' f g h : UInt8) (t : List UInt8) (vf : Nat) (ok : OutKind) (sf : Nat) (r : Relaxation)
+    (hdec : newRelaxation R_TLSGD (gdImg a b c d e' f g h t) 4 vf ok sf = .ok (some r))
+    (hk : r.kind = .tlsGdToInitialExec) :
+    r.rtype = R_GOTTPOFF ∧ skipNext r.kind = true ∧ ∃ new,
+      apply r.kind (gdImg a b c d e' f g h t) 4 (-4) = .ok ⟨new, 12, -4⟩ ∧
+      ∀ (e : TlsEnv) (σ : State) (G GT : BitVec 64),
+        σ.mem σ.fsBase = σ.fsBase →
+        e.tlsBase (σ.mem G) + σ.mem (G + 8#64) = σ.fsBase + σ.mem GT →
+        fitsS32 (G - 4#64 - (σ.rip + 4#64)) →
+        fitsS32 (e.getAddr - 4#64 - (σ.rip + 12#64)) →
+        fitsS32 (GT - 4#64 - (σ.rip + 12#64)) →
+        ∃ σ₁ σ₂,
+          runSeq e 2 (patch32 (patch32 (gdImg a b c d e' f g h t) 4 ((G - 4#64 - (σ.rip + 4#64)).truncate 32)) 12
+                        ((e.getAddr - 4#64 - (σ.rip + 12#64)).truncate 32)) σ = some σ₁ ∧
+          runSeq e 2 (patch32 new 12 ((GT - 4#64 - (σ.rip + 12#64)).truncate 32)) σ = some σ₂ ∧
+          ObsEq σ₁ σ₂ := by
+  have hrt : r.rtype = R_GOTTPOFF := by
+    rcases dec19 _ _ _ _ _ _ _ _ _ _ _ _ _ hdec with h | h
+    · rw [hk] at h; simp at h
+    · exact h.2
+  refine ⟨hrt, by rw [hk]; rfl, _, by rw [hk, app_gd_ie], ?_⟩
+  intro e σ G GT hfs hie hG hcall hGT
+  exact gd_ie_sem e σ t G GT hfs hie hG hcall hGT
+
+/-! #### local dynamic -> local exec -/
+
+/-- `lea x@tlsld(%rip),%rdi; call __tls_get_addr@PLT` -/
+def ldImg (a b c d e f g h : UInt8) (t : List UInt8) : List UInt8 :=
+  0x48 :: 0x8d :: 0x3d :: a :: b :: c :: d :: 0xe8 :: e :: f :: g :: h :: t
+
+/-- `lea x@tlsld(%rip),%rdi; call *__tls_get_addr@GOTPCREL(%rip)` -/
+def ldNoPltImg (a b c d e f g h : UInt8) (t : List UInt8) : List UInt8 :=
+  0x48 :: 0x8d :: 0x3d :: a :: b :: c :: d :: 0xff :: 0x15 :: e :: f :: g :: h :: t
+
+theorem armTlsLd_of (bs : List UInt8) (vf : Nat) (ok : OutKind) (sf : Nat) (r : Relaxation) (hlen : 3 ≤ bs.length)
+    (hd : newRelaxation R_TLSLD bs 3 vf ok sf = .ok (some r)) :
+    armTlsLd (mkCfg vf ok) bs 3 = .ok (some r) := by
+  by_cases hi : vfIfunc vf = true
+  · simp [newRelaxation, hi, R_TLSLD, R_PC32] at hd
+  by_cases hs : sfExec sf = false
+  · simp [newRelaxation, hi, hs] at hd
+  rw [← hd]
+  simp [newRelaxation, hi, hs, R_TLSLD, R_TLSGD, R_GOTPCREL, R_GOTPCRELX, R_REX_GOTPCRELX, R_CODE_4_GOTPCRELX, R_PC32, R_GOTTPOFF,
+    R_CODE_4_GOTTPOFF, R_CODE_6_GOTTPOFF, R_PLT32, R_PLTOFF64]
+  omega
+
+theorem dec20 (a b c d e f g h : UInt8) (t : List UInt8) (vf : Nat) (ok : OutKind) (sf : Nat) (r : Relaxation)
+    (hd : newRelaxation R_TLSLD (ldImg a b c d e f g h t) 3 vf ok sf = .ok (some r)) :
+    r.kind = .tlsLdToLocalExec ∧ r.rtype = R_NONE := by
+  replace hd := armTlsLd_of _ _ _ _ _ (by simp [ldImg]) hd
+  simp [ldImg, armTlsLd, getRange, pure, Except.pure] at hd
+  repeat' (split at hd)
+  all_goals (simp_all)
+  all_goals (subst hd; simp)
+
+theorem dec20_noplt (a b c d e f g h : UInt8) (t : List UInt8) (vf : Nat) (ok : OutKind) (sf : Nat) (r : Relaxation)
+    (hd : newRelaxation R_TLSLD (ldNoPltImg a b c d e f g h t) 3 vf ok sf = .ok (some r)) :
+    r.kind = .tlsLdToLocalExecNoPlt ∧ r.rtype = R_NONE := by
+  replace hd := armTlsLd_of _ _ _ _ _ (by simp [ldNoPltImg]) hd
+  simp [ldNoPltImg, armTlsLd, getRange, pure, Except.pure] at hd
+  repeat' (split at hd)
+  all_goals (simp_all)
+  all_goals (subst hd; simp)
+
+theorem app_ld (a b c d e f g h : UInt8) (t : List UInt8) (ad : Int) :
+    apply .tlsLdToLocalExec (ldImg a b c d e f g h t) 3 ad =
+      .ok ⟨0x66 :: 0x66 :: 0x66 :: 0x64 :: 0x48 :: 0x8b :: 0x04 :: 0x25 :: 0 :: 0 :: 0 :: 0 :: t, 8, ad⟩ := by
+  simp [ldImg, apply, usub, splice, bind, Except.bind, pure, Except.pure]
+
+theorem app_ld_noplt (a b c d e f g h : UInt8) (t : List UInt8) (ad : Int) :
+    apply .tlsLdToLocalExecNoPlt (ldNoPltImg a b c d e f g h t) 3 ad =
+      .ok ⟨0x66 :: 0x66 :: 0x66 :: 0x66 :: 0x64 :: 0x48 :: 0x8b :: 0x04 :: 0x25 :: 0 :: 0 :: 0 :: 0 :: t, 8, ad⟩ := by
+  simp [ldNoPltImg, apply, usub, splice, bind, Except.bind, pure, Except.pure]
+
+/-- TLS local dynamic -> local exec (`TlsLdToLocalExec`, R_X86_64_TLSLD -> R_X86_64_NONE, next
+relocation skipped): `lea x@tlsld(%rip),%rdi; call __tls_get_addr@PLT` -> `data16 data16 data16 mov %fs:0,%rax`.
+
+wild resolves R_X86_64_DTPOFF32 in executables relative to the END of the TLS segment whether or not
+the sequence was relaxed (elf_writer.rs `RelocationKind::DtpOff`), and for an un-relaxed sequence
+stores the `tls_index` pair {own module, tpStart - tlsStart} (elf_writer.rs, "DTPOFF values are negative
+values relative to the thread pointer"); so the original sequence must leave `%rax = TP` as well.
+That is what is proved, under `hoff` (the pair's offset word), `hII` (variant II: the executable's
+TLS block lies directly below TP) and `%fs:0 = TP`. -/
+theorem tls_ld_to_le_ok (a b c d e' f g h : UInt8) (t : List UInt8) (vf : Nat) (ok : OutKind) (sf : Nat) (r : Relaxation)
+    (hdec : newRelaxation R_TLSLD (ldImg a b c d e' f g h t) 3 vf ok sf = .ok (some r)) :
+    r.kind = .tlsLdToLocalExec ∧ r.rtype = R_NONE ∧ skipNext r.kind = true ∧ ∃ new,
+      apply r.kind (ldImg a b c d e' f g h t) 3 (-4) = .ok ⟨new, 8, -4⟩ ∧
+      ∀ (e : TlsEnv) (σ : State) (G tlsStart tpStart : BitVec 64),
+        σ.mem σ.fsBase = σ.fsBase →
+        σ.mem (G + 8#64) = tpStart - tlsStart →
+        e.tlsBase (σ.mem G) = σ.fsBase - (tpStart - tlsStart) →
+        fitsS32 (G - 4#64 - (σ.rip + 3#64)) →
+        fitsS32 (e.getAddr - 4#64 - (σ.rip + 8#64)) →
+        ∃ σ₁ σ₂,
+          runSeq e 2 (patch32 (patch32 (ldImg a b c d e' f g h t) 3 ((G - 4#64 - (σ.rip + 3#64)).truncate 32)) 8
+                        ((e.getAddr - 4#64 - (σ.rip + 8#64)).truncate 32)) σ = some σ₁ ∧
+          runSeq e 1 new σ = some σ₂ ∧
+          ObsEq σ₁ σ₂ ∧ σ₂.reg 0 = σ.fsBase := by
+  obtain ⟨hk, hrt⟩ := dec20 _ _ _ _ _ _ _ _ _ _ _ _ _ hdec
+  refine ⟨hk, hrt, by rw [hk]; rfl, _, by rw [hk, app_ld], ?_⟩
+  intro e σ G tlsStart tpStart hfs hoff hII hG hcall
+  have h1 : σ.rip + 7#64 + sext32 ((G - 4#64 - (σ.rip + 3#64)).truncate 32) = G := by
+    have := rel_ea _ _ hG; unfold sext32 at *; bv_decide
+  have h2 : σ.rip + 7#64 + 5#64 + sext32 ((e.getAddr - 4#64 - (σ.rip + 8#64)).truncate 32) = e.getAddr := by
+    have := rel_ea _ _ hcall; unfold sext32 at *; bv_decide
+  have hz : sext32 0#32 = 0#64 := by decide
+  have hp : patch32 (patch32 (ldImg a b c d e' f g h t) 3 ((G - 4#64 - (σ.rip + 3#64)).truncate 32)) 8
+      ((e.getAddr - 4#64 - (σ.rip + 8#64)).truncate 32) =
+      0x48 :: 0x8d :: 0x3d :: (bytes32 ((G - 4#64 - (σ.rip + 3#64)).truncate 32) ++
+        0xe8 :: (bytes32 ((e.getAddr - 4#64 - (σ.rip + 8#64)).truncate 32) ++ t)) := rfl
+  rw [hp]
+  simp [runSeq, dec_lea_rdi3, dec_call, dec_mov_fs0_p3, stepIns, drop_bytes32, setReg, h1, h2, tlsGetAddr, hz, hfs]
+  refine ⟨by bv_decide, rfl, rfl, ?_, ?_⟩
+  · show e.tlsBase (σ.mem G) + σ.mem (G + 8#64) = σ.fsBase
+    rw [hII, hoff]; clear h1 h2 hp; bv_omega
+  · intro r hr
+    obtain ⟨h0, h7⟩ := volatile_false_ne r hr
+    simp [h0, h7, hr]
+
+/-- `TlsLdToLocalExecNoPlt`: same with `call *__tls_get_addr@GOTPCREL(%rip)` (GOT slot `GA` holds the
+address of `__tls_get_addr`) -> `data16 data16 data16 data16 mov %fs:0,%rax`. -/
+theorem tls_ld_to_le_noplt_ok (a b c d e' f g h : UInt8) (t : List UInt8) (vf : Nat) (ok : OutKind) (sf : Nat) (r : Relaxation)
+    (hdec : newRelaxation R_TLSLD (ldNoPltImg a b c d e' f g h t) 3 vf ok sf = .ok (some r)) :
+    r.kind = .tlsLdToLocalExecNoPlt ∧ r.rtype = R_NONE ∧ skipNext r.kind = true ∧ ∃ new,
+      apply r.kind (ldNoPltImg a b c d e' f g h t) 3 (-4) = .ok ⟨new, 8, -4⟩ ∧
+      ∀ (e : TlsEnv) (σ : State) (G GA tlsStart tpStart : BitVec 64),
+        σ.mem σ.fsBase = σ.fsBase →
+        σ.mem (G + 8#64) = tpStart - tlsStart →
+        e.tlsBase (σ.mem G) = σ.fsBase - (tpStart - tlsStart) →
+        σ.mem GA = e.getAddr →
+        fitsS32 (G - 4#64 - (σ.rip + 3#64)) →
+        fitsS32 (GA - 4#64 - (σ.rip + 9#64)) →
+        ∃ σ₁ σ₂,
+          runSeq e 2 (patch32 (patch32 (ldNoPltImg a b c d e' f g h t) 3 ((G - 4#64 - (σ.rip + 3#64)).truncate 32)) 9
+                        ((GA - 4#64 - (σ.rip + 9#64)).truncate 32)) σ = some σ₁ ∧
+          runSeq e 1 new σ = some σ₂ ∧
+          ObsEq σ₁ σ₂ ∧ σ₂.reg 0 = σ.fsBase := by
+  obtain ⟨hk, hrt⟩ := dec20_noplt _ _ _ _ _ _ _ _ _ _ _ _ _ hdec
+  refine ⟨hk, hrt, by rw [hk]; rfl, _, by rw [hk, app_ld_noplt], ?_⟩
+  intro e σ G GA tlsStart tpStart hfs hoff hII hGA hG hcall
+  have h1 : σ.rip + 7#64 + sext32 ((G - 4#64 - (σ.rip + 3#64)).truncate 32) = G := by
+    have := rel_ea _ _ hG; unfold sext32 at *; bv_decide
+  have h2 : σ.rip + 7#64 + 6#64 + sext32 ((GA - 4#64 - (σ.rip + 9#64)).truncate 32) = GA := by
+    have := rel_ea _ _ hcall; unfold sext32 at *; bv_decide
+  have hz : sext32 0#32 = 0#64 := by decide
+  have hp : patch32 (patch32 (ldNoPltImg a b c d e' f g h t) 3 ((G - 4#64 - (σ.rip + 3#64)).truncate 32)) 9
+      ((GA - 4#64 - (σ.rip + 9#64)).truncate 32) =
+      0x48 :: 0x8d :: 0x3d :: (bytes32 ((G - 4#64 - (σ.rip + 3#64)).truncate 32) ++
+        0xff :: 0x15 :: (bytes32 ((GA - 4#64 - (σ.rip + 9#64)).truncate 32) ++ t)) := rfl
+  rw [hp]
+  simp [runSeq, dec_lea_rdi3, dec_call_rip, dec_mov_fs0_p4, stepIns, drop_bytes32, setReg, h1, h2, hGA, tlsGetAddr, hz, hfs]
+  refine ⟨by bv_decide, rfl, rfl, ?_, ?_⟩
+  · show e.tlsBase (σ.mem G) + σ.mem (G + 8#64) = σ.fsBase
+    rw [hII, hoff]; clear h1 h2 hp; bv_omega
+  · intro r hr
+    obtain ⟨h0, h7⟩ := volatile_false_ne r hr
+    simp [h0, h7, hr]
+
+/-! #### initial exec -> local exec (single instruction; `Effect`-level like the GOT rewrites) -/
+
+/-- Observable equivalence for IE -> LE: the GOT slot of the original holds the TP offset
+`S - tpStart` of `x`; the rewritten instruction gets it as immediate (R_X86_64_TPOFF32: `S + A - tpStart`
+with `A = 0`, signed 32-bit check). -/
+def TpEquiv (f f' : Form) (hlen : Nat) : Prop :=
+  ∀ (σ : State) (S tpStart GOT : BitVec 64), fitsS32 (GOT - 4#64 - place σ hlen) → fitsS32 (S + 0#64 - tpStart) →
+    σ.mem GOT = S - tpStart → exec f hlen (gotField σ hlen GOT) σ = exec f' hlen ((S + 0#64 - tpStart).truncate 32) σ
+
+theorem armGottpoff_of (rt : Nat) (hrt : rt = R_GOTTPOFF ∨ rt = R_CODE_4_GOTTPOFF) (bs : List UInt8) (off : Nat) (vf : Nat)
+    (ok : OutKind) (sf : Nat) (r : Relaxation) (hlen : off ≤ bs.length)
+    (hd : newRelaxation rt bs off vf ok sf = .ok (some r)) :
+    armGottpoff (mkCfg vf ok) (decide (rt = R_CODE_4_GOTTPOFF)) bs off = .ok (some r) := by
+  by_cases hi : vfIfunc vf = true
+  · rcases hrt with h | h <;> simp [newRelaxation, hi, h, R_GOTTPOFF, R_CODE_4_GOTTPOFF, R_PC32] at hd
+  by_cases hs : sfExec sf = false
+  · simp [newRelaxation, hi, hs] at hd
+  rw [← hd]
+  rcases hrt with h | h <;> subst h <;>
+  simp [newRelaxation, hi, hs, R_TLSLD, R_TLSGD, R_GOTPCREL, R_GOTPCRELX, R_REX_GOTPCRELX, R_CODE_4_GOTPCRELX, R_PC32, R_GOTTPOFF,
+    R_CODE_4_GOTTPOFF, R_CODE_6_GOTTPOFF, R_PLT32, R_PLTOFF64] <;> omega
+
+theorem dec22 (rex op m : UInt8) (t : List UInt8) (vf : Nat) (ok : OutKind) (sf : Nat) (r : Relaxation)
+    (hd : newRelaxation R_GOTTPOFF (rex :: op :: m :: t) 3 vf ok sf = .ok (some r)) :
+    (rex = 0x48 ∨ rex = 0x4c) ∧ r.rtype = R_TPOFF32 ∧
+    ((op = 0x8b ∧ r.kind = .rexMovIndirectToAbsolute 3) ∨ (op = 0x03 ∧ r.kind = .rexAddIndirectToAbsolute 3)) := by
+  replace hd := armGottpoff_of _ (.inl rfl) _ _ _ _ _ _ (by simp) hd
+  simp [R_GOTTPOFF, R_CODE_4_GOTTPOFF, armGottpoff, code4Guard, getRange, bind, Except.bind, pure, Except.pure] at hd
+  repeat' (split at hd)
+  all_goals (simp_all)
+  all_goals (subst hd; simp_all)
+  all_goals (rename_i hh; rcases hh with ⟨h1, h2⟩ | ⟨h1, h2⟩ <;> simp [h1, h2])
+
+theorem dec44 (pl op m : UInt8) (t : List UInt8) (vf : Nat) (ok : OutKind) (sf : Nat) (r : Relaxation)
+    (hd : newRelaxation R_CODE_4_GOTTPOFF (0xd5 :: pl :: op :: m :: t) 4 vf ok sf = .ok (some r)) :
+    (pl = 0x48 ∨ pl = 0x4c) ∧ r.rtype = R_TPOFF32 ∧
+    ((op = 0x8b ∧ r.kind = .rexMovIndirectToAbsolute 4) ∨ (op = 0x03 ∧ r.kind = .rexAddIndirectToAbsolute 4)) := by
+  replace hd := armGottpoff_of _ (.inr rfl) _ _ _ _ _ _ (by simp) hd
+  simp [R_GOTTPOFF, R_CODE_4_GOTTPOFF, armGottpoff, code4Guard, idx, getRange, bind, Except.bind, pure, Except.pure] at hd
+  repeat' (split at hd)
+  all_goals (simp_all)
+  all_goals (subst hd; simp_all)
+  all_goals (rename_i hh; rcases hh with ⟨h1, h2⟩ | ⟨h1, h2⟩ <;> simp [h1, h2])
+
+theorem tp_of_abs (f f' : Form) (hlen : Nat) (h : AbsEquiv f f' hlen 0) : TpEquiv f f' hlen := by
+  intro σ S tpStart GOT hG hS hmem
+  have e0 : S + 0#64 - tpStart = (S - tpStart) + 0 := by simp
+  rw [e0] at hS ⊢
+  exact h σ (S - tpStart) GOT hG hS hmem
+
+theorem absEquiv_mov (r : Reg) (hlen : Nat) : AbsEquiv (.movRip .w64 r) (.movImm .w64 r) hlen 0 := by
+  intro σ S GOT hG hS hmem
+  have e : S + (0 : BitVec 64) = S := by simp
+  rw [e] at hS ⊢
+  exact abs64_sem _ σ S GOT hlen hG hS hmem
+
+theorem absEquiv_alu (op : Alu) (r : Reg) (hlen : Nat) : AbsEquiv (.aluRip op r) (.aluImm op r) hlen 0 := by
+  intro σ S GOT hG hS hmem
+  have e : S + (0 : BitVec 64) = S := by simp
+  rw [e] at hS ⊢
+  exact alu_sem _ _ σ S GOT hlen hG hS hmem
+
+/-- TLS initial exec -> local exec (R_X86_64_GOTTPOFF -> R_X86_64_TPOFF32):
+`mov x@gottpoff(%rip),%r64` -> `mov $x@tpoff,%r64`; `add x@gottpoff(%rip),%r64` -> `add $x@tpoff,%r64`
+(same destination value AND same flags). -/
+theorem gottpoff_ok (rex op reg : UInt8) (hreg : reg ∈ regs8) (t : List UInt8) (vf : Nat) (ok : OutKind) (sf : Nat)
+    (r : Relaxation)
+    (hdec : newRelaxation R_GOTTPOFF (rex :: op :: ripModrm reg :: t) 3 vf ok sf = .ok (some r)) :
+    r.rtype = R_TPOFF32 ∧ ∃ h0 h1 h2 f f',
+      apply r.kind (rex :: op :: ripModrm reg :: t) 3 (-4) = .ok ⟨h0 :: h1 :: h2 :: t, 3, 0⟩ ∧
+      decodeHead [rex, op, ripModrm reg] = some f ∧ decodeHead [h0, h1, h2] = some f' ∧ TpEquiv f f' 3 ∧
+      ((op = 0x8b ∧ r.kind = .rexMovIndirectToAbsolute 3) ∨ (op = 0x03 ∧ r.kind = .rexAddIndirectToAbsolute 3)) := by
+  obtain ⟨hrex, hrt, hc⟩ := dec22 _ _ _ _ _ _ _ _ hdec
+  have hrex' : rex ∈ [0x48, 0x4c] := by rcases hrex with h | h <;> simp [h]
+  refine ⟨hrt, ?_⟩
+  rcases hc with ⟨hop, hk⟩ | ⟨hop, hk⟩
+  · subst hop
+    refine ⟨rexRtoB rex, 0xc7, modrmRegToRm (ripModrm reg) 0xc0, _, _, ?_, (rex_mov_heads rex hrex' reg hreg).1,
+      (rex_mov_heads rex hrex' reg hreg).2.1, tp_of_abs _ _ _ (absEquiv_mov _ _), .inl ⟨rfl, hk⟩⟩
+    simp [hk, apply, rexToAbs42_ok, bind, Except.bind, pure, Except.pure]
+  · subst hop
+    refine ⟨rexRtoB rex, 0x81, modrmRegToRm (ripModrm reg) 0xc0, _, _, ?_, (rex_alu_heads rex hrex' reg hreg).2.2.2.2.1,
+      (rex_alu_heads rex hrex' reg hreg).2.2.2.2.2, tp_of_abs _ _ _ (absEquiv_alu _ _ _), .inr ⟨rfl, hk⟩⟩
+    simp [hk, apply, rexToAbs42_ok, bind, Except.bind, pure, Except.pure]
+
+/-- REX2 form (R_X86_64_CODE_4_GOTTPOFF -> R_X86_64_TPOFF32), registers r16..r31. -/
+theorem rex2_gottpoff_ok (pl op reg : UInt8) (hreg : reg ∈ regs8) (t : List UInt8) (vf : Nat) (ok : OutKind) (sf : Nat)
+    (r : Relaxation)
+    (hdec : newRelaxation R_CODE_4_GOTTPOFF (0xd5 :: pl :: op :: ripModrm reg :: t) 4 vf ok sf = .ok (some r)) :
+    r.rtype = R_TPOFF32 ∧ ∃ h1 h2 h3 f f',
+      apply r.kind (0xd5 :: pl :: op :: ripModrm reg :: t) 4 (-4) = .ok ⟨0xd5 :: h1 :: h2 :: h3 :: t, 4, 0⟩ ∧
+      decodeHead [0xd5, pl, op, ripModrm reg] = some f ∧ decodeHead [0xd5, h1, h2, h3] = some f' ∧ TpEquiv f f' 4 ∧
+      ((op = 0x8b ∧ r.kind = .rexMovIndirectToAbsolute 4) ∨ (op = 0x03 ∧ r.kind = .rexAddIndirectToAbsolute 4)) := by
+  obtain ⟨hpl, hrt, hc⟩ := dec44 _ _ _ _ _ _ _ _ hdec
+  have hpl' : pl ∈ [0x48, 0x4c] := by rcases hpl with h | h <;> simp [h]
+  have T := rex2_heads pl hpl' reg hreg
+  refine ⟨hrt, ?_⟩
+  rcases hc with ⟨hop, hk⟩ | ⟨hop, hk⟩
+  · subst hop
+    refine ⟨rex2RtoB pl, 0xc7, modrmRegToRm (ripModrm reg) 0xc0, _, _, ?_, T.1, T.2.1, tp_of_abs _ _ _ (absEquiv_mov _ _), .inl ⟨rfl, hk⟩⟩
+    simp [hk, apply, rexToAbs43_ok, bind, Except.bind, pure, Except.pure]
+  · subst hop
+    refine ⟨rex2RtoB pl, 0x81, modrmRegToRm (ripModrm reg) 0xc0, _, _, ?_, T.2.2.2.2.2.2.2.1, T.2.2.2.2.2.2.2.2,
+      tp_of_abs _ _ _ (absEquiv_alu _ _ _), .inr ⟨rfl, hk⟩⟩
+    simp [hk, apply, rexToAbs43_ok, bind, Except.bind, pure, Except.pure]
+
+/-! #### large code model TLS sequences -/
+
+/-- large code model: `lea x@tlsld(%rip),%rdi; movabs $__tls_get_addr@PLTOFF,%rax; add %rbx,%rax; call *%rax` -/
+def ld64Img (a b c d : UInt8) (i0 i1 i2 i3 i4 i5 i6 i7 : UInt8) (t : List UInt8) : List UInt8 :=
+  0x48 :: 0x8d :: 0x3d :: a :: b :: c :: d :: 0x48 :: 0xb8 :: i0 :: i1 :: i2 :: i3 :: i4 :: i5 :: i6 :: i7 ::
+    0x48 :: 0x01 :: 0xd8 :: 0xff :: 0xd0 :: t
+
+theorem dec20_64 (a b c d i0 i1 i2 i3 i4 i5 i6 i7 : UInt8) (t : List UInt8) (vf : Nat) (ok : OutKind) (sf : Nat) (r : Relaxation)
+    (hd : newRelaxation R_TLSLD (ld64Img a b c d i0 i1 i2 i3 i4 i5 i6 i7 t) 3 vf ok sf = .ok (some r)) :
+    r.kind = .tlsLdToLocalExec64 ∧ r.rtype = R_NONE := by
+  replace hd := armTlsLd_of _ _ _ _ _ (by simp [ld64Img]) hd
+  simp [ld64Img, armTlsLd, getRange, pure, Except.pure] at hd
+  repeat' (split at hd)
+  all_goals (simp_all)
+  all_goals (subst hd; simp)
+
+theorem app_ld64 (a b c d i0 i1 i2 i3 i4 i5 i6 i7 : UInt8) (t : List UInt8) (ad : Int) :
+    apply .tlsLdToLocalExec64 (ld64Img a b c d i0 i1 i2 i3 i4 i5 i6 i7 t) 3 ad =
+      .ok ⟨0x66 :: 0x66 :: 0x66 :: 0x66 :: 0x2e :: 0x0f :: 0x1f :: 0x84 :: 0 :: 0 :: 0 :: 0 :: 0 ::
+           0x64 :: 0x48 :: 0x8b :: 0x04 :: 0x25 :: 0 :: 0 :: 0 :: 0 :: t, 18, ad⟩ := by
+  simp [ld64Img, apply, usub, splice, bind, Except.bind, pure, Except.pure]
+
+/-- `TlsLdToLocalExec64` (large code model; R_X86_64_TLSLD -> R_X86_64_NONE, the R_X86_64_PLTOFF64 of the
+`movabs` skipped) -> `nopw; mov %fs:0,%rax`.  `%rbx` holds the GOT base `gotBase` and the `movabs` immediate
+is `L + A - gotBase` (A = 0).  Other hypotheses as in `tls_ld_to_le_ok`. -/
+theorem tls_ld_to_le_64_ok (a b c d i0 i1 i2 i3 i4 i5 i6 i7 : UInt8) (t : List UInt8) (vf : Nat) (ok : OutKind) (sf : Nat)
+    (r : Relaxation)
+    (hdec : newRelaxation R_TLSLD (ld64Img a b c d i0 i1 i2 i3 i4 i5 i6 i7 t) 3 vf ok sf = .ok (some r)) :
+    r.kind = .tlsLdToLocalExec64 ∧ r.rtype = R_NONE ∧ skipNext r.kind = true ∧ ∃ new,
+      apply r.kind (ld64Img a b c d i0 i1 i2 i3 i4 i5 i6 i7 t) 3 (-4) = .ok ⟨new, 18, -4⟩ ∧
+      ∀ (e : TlsEnv) (σ : State) (G gotBase tlsStart tpStart : BitVec 64),
+        σ.mem σ.fsBase = σ.fsBase →
+        σ.mem (G + 8#64) = tpStart - tlsStart →
+        e.tlsBase (σ.mem G) = σ.fsBase - (tpStart - tlsStart) →
+        σ.reg 3 = gotBase →
+        fitsS32 (G - 4#64 - (σ.rip + 3#64)) →
+        ∃ σ₁ σ₂,
+          runSeq e 4 (patch64 (patch32 (ld64Img a b c d i0 i1 i2 i3 i4 i5 i6 i7 t) 3 ((G - 4#64 - (σ.rip + 3#64)).truncate 32)) 9
+                        (e.getAddr + 0#64 - gotBase)) σ = some σ₁ ∧
+          runSeq e 2 new σ = some σ₂ ∧
+          ObsEq σ₁ σ₂ := by
+  obtain ⟨hk, hrt⟩ := dec20_64 _ _ _ _ _ _ _ _ _ _ _ _ _ _ _ _ _ hdec
+  refine ⟨hk, hrt, by rw [hk]; rfl, _, by rw [hk, app_ld64], ?_⟩
+  intro e σ G gotBase tlsStart tpStart hfs hoff hII hrbx hG
+  have h1 : σ.rip + 7#64 + sext32 ((G - 4#64 - (σ.rip + 3#64)).truncate 32) = G := by
+    have := rel_ea _ _ hG; unfold sext32 at *; bv_decide
+  have h2 : e.getAddr - gotBase + gotBase = e.getAddr := by bv_omega
+  have hz : sext32 0#32 = 0#64 := by decide
+  have hp : patch64 (patch32 (ld64Img a b c d i0 i1 i2 i3 i4 i5 i6 i7 t) 3 ((G - 4#64 - (σ.rip + 3#64)).truncate 32)) 9
+      (e.getAddr + 0#64 - gotBase) =
+      0x48 :: 0x8d :: 0x3d :: (bytes32 ((G - 4#64 - (σ.rip + 3#64)).truncate 32) ++
+        0x48 :: 0xb8 :: (bytes64 (e.getAddr + 0#64 - gotBase) ++ 0x48 :: 0x01 :: 0xd8 :: 0xff :: 0xd0 :: t)) := rfl
+  rw [hp]
+  simp [runSeq, dec_lea_rdi3, dec_movabs_rax, dec_add_rbx_rax, dec_call_rax, dec_nop13, dec_mov_fs0, stepIns, drop_bytes32,
+    drop_bytes64, setReg, h1, h2, hrbx, tlsGetAddr, hz, hfs]
+  refine ⟨by bv_decide, rfl, rfl, ?_, ?_⟩
+  · show e.tlsBase (σ.mem G) + σ.mem (G + 8#64) = σ.fsBase
+    rw [hII, hoff]; clear h1 h2 hp; bv_omega
+  · intro r hr
+    obtain ⟨h0, h7⟩ := volatile_false_ne r hr
+    simp [h0, h7, hr]
+
+/-- large code model general dynamic sequence preceded by an arbitrary byte `p` (the decision refuses
+offsets < 4): `lea x@tlsgd(%rip),%rdi; movabs $__tls_get_addr@PLTOFF,%rax; add %rbx,%rax; call *%rax` -/
+def gdLargeImg (p a b c d : UInt8) (i0 i1 i2 i3 i4 i5 i6 i7 : UInt8) (t : List UInt8) : List UInt8 :=
+  p :: ld64Img a b c d i0 i1 i2 i3 i4 i5 i6 i7 t
+
+theorem identify_gdLargeImg (p a b c d i0 i1 i2 i3 i4 i5 i6 i7 : UInt8) (t : List UInt8) :
+    identifyTlsGd (gdLargeImg p a b c d i0 i1 i2 i3 i4 i5 i6 i7 t) 4 = .ok (some .large) := by
+  simp [gdLargeImg, ld64Img, identifyTlsGd, getRange, pure, Except.pure]
+
+theorem dec19_large (p a b c d i0 i1 i2 i3 i4 i5 i6 i7 : UInt8) (t : List UInt8) (vf : Nat) (ok : OutKind) (sf : Nat) (r : Relaxation)
+    (hd : newRelaxation R_TLSGD (gdLargeImg p a b c d i0 i1 i2 i3 i4 i5 i6 i7 t) 4 vf ok sf = .ok (some r)) :
+    r.kind = .tlsGdToLocalExecLarge ∧ r.rtype = R_TPOFF32 := by
+  have hlen : (gdLargeImg p a b c d i0 i1 i2 i3 i4 i5 i6 i7 t).length = t.length + 23 := by simp [gdLargeImg, ld64Img]
+  by_cases hi : vfIfunc vf = true
+  · simp [newRelaxation, hi, R_TLSGD, R_PC32] at hd
+  by_cases hs : sfExec sf = false
+  · simp [newRelaxation, hi, hs] at hd
+  replace hd : armTlsGd (mkCfg vf ok) (gdLargeImg p a b c d i0 i1 i2 i3 i4 i5 i6 i7 t) 4 = .ok (some r) := by
+    rw [← hd]
+    simp [newRelaxation, hi, hs, hlen, R_TLSGD, R_GOTPCREL, R_GOTPCRELX, R_REX_GOTPCRELX, R_CODE_4_GOTPCRELX, R_PC32, R_GOTTPOFF,
+      R_CODE_4_GOTTPOFF, R_CODE_6_GOTTPOFF, R_PLT32, R_PLTOFF64]
+    omega
+  simp [armTlsGd, identify_gdLargeImg, bind, Except.bind, pure, Except.pure] at hd
+  repeat' (split at hd)
+  all_goals (simp_all)
+  all_goals (subst hd; simp)
+
+theorem app_gd_large (p a b c d i0 i1 i2 i3 i4 i5 i6 i7 : UInt8) (t : List UInt8) (ad : Int) :
+    apply .tlsGdToLocalExecLarge (gdLargeImg p a b c d i0 i1 i2 i3 i4 i5 i6 i7 t) 4 ad =
+      .ok ⟨p :: 0x64 :: 0x48 :: 0x8b :: 0x04 :: 0x25 :: 0 :: 0 :: 0 :: 0 :: 0x48 :: 0x8d :: 0x80 :: 0 :: 0 :: 0 :: 0 ::
+           0x66 :: 0x0f :: 0x1f :: 0x44 :: 0 :: 0 :: t, 13, 0⟩ := by
+  simp [gdLargeImg, ld64Img, apply, usub, splice, bind, Except.bind, pure, Except.pure]
+
+/-- `TlsGdToLocalExecLarge` (large code model; R_X86_64_TLSGD -> R_X86_64_TPOFF32 at offset + 9, the
+PLTOFF64 skipped) -> `mov %fs:0,%rax; lea x@tpoff(%rax),%rax; nopw 0(%rax,%rax,1)`.  Execution starts at
+byte 1 of the image (`σ.rip` = its address); hypotheses as in `tls_gd_to_le_ok` plus `%rbx = gotBase`. -/
+theorem tls_gd_to_le_large_ok (p a b c d i0 i1 i2 i3 i4 i5 i6 i7 : UInt8) (t : List UInt8) (vf : Nat) (ok : OutKind) (sf : Nat)
+    (r : Relaxation)
+    (hdec : newRelaxation R_TLSGD (gdLargeImg p a b c d i0 i1 i2 i3 i4 i5 i6 i7 t) 4 vf ok sf = .ok (some r)) :
+    r.kind = .tlsGdToLocalExecLarge ∧ r.rtype = R_TPOFF32 ∧ skipNext r.kind = true ∧ ∃ new,
+      apply r.kind (gdLargeImg p a b c d i0 i1 i2 i3 i4 i5 i6 i7 t) 4 (-4) = .ok ⟨new, 13, 0⟩ ∧
+      ∀ (e : TlsEnv) (σ : State) (G S gotBase tlsStart tpStart : BitVec 64),
+        σ.mem σ.fsBase = σ.fsBase →
+        σ.mem (G + 8#64) = S - tlsStart →
+        e.tlsBase (σ.mem G) = σ.fsBase - (tpStart - tlsStart) →
+        σ.reg 3 = gotBase →
+        fitsS32 (G - 4#64 - (σ.rip + 3#64)) →
+        fitsS32 (S + 0#64 - tpStart) →
+        ∃ σ₁ σ₂,
+          runSeq e 4 ((patch64 (patch32 (gdLargeImg p a b c d i0 i1 i2 i3 i4 i5 i6 i7 t) 4 ((G - 4#64 - (σ.rip + 3#64)).truncate 32)) 10
+                        (e.getAddr + 0#64 - gotBase)).drop 1) σ = some σ₁ ∧
+          runSeq e 3 ((patch32 new 13 ((S + 0#64 - tpStart).truncate 32)).drop 1) σ = some σ₂ ∧
+          ObsEq σ₁ σ₂ := by
+  obtain ⟨hk, hrt⟩ := dec19_large _ _ _ _ _ _ _ _ _ _ _ _ _ _ _ _ _ _ hdec
+  refine ⟨hk, hrt, by rw [hk]; rfl, _, by rw [hk, app_gd_large], ?_⟩
+  intro e σ G S gotBase tlsStart tpStart hfs hoff hII hrbx hG hS
+  simp only [BitVec.add_zero] at hS ⊢
+  have h1 : σ.rip + 7#64 + sext32 ((G - 4#64 - (σ.rip + 3#64)).truncate 32) = G := by
+    have := rel_ea _ _ hG; unfold sext32 at *; bv_decide
+  have h2 : e.getAddr - gotBase + gotBase = e.getAddr := by bv_omega
+  have hz : sext32 0#32 = 0#64 := by decide
+  have hp : (patch64 (patch32 (gdLargeImg p a b c d i0 i1 i2 i3 i4 i5 i6 i7 t) 4 ((G - 4#64 - (σ.rip + 3#64)).truncate 32)) 10
+      (e.getAddr - gotBase)).drop 1 =
+      0x48 :: 0x8d :: 0x3d :: (bytes32 ((G - 4#64 - (σ.rip + 3#64)).truncate 32) ++
+        0x48 :: 0xb8 :: (bytes64 (e.getAddr - gotBase) ++ 0x48 :: 0x01 :: 0xd8 :: 0xff :: 0xd0 :: t)) := rfl
+  have hq : (patch32 (p :: 0x64 :: 0x48 :: 0x8b :: 0x04 :: 0x25 :: 0 :: 0 :: 0 :: 0 :: 0x48 :: 0x8d :: 0x80 :: 0 :: 0 :: 0 :: 0 ::
+           0x66 :: 0x0f :: 0x1f :: 0x44 :: 0 :: 0 :: t) 13 ((S - tpStart).truncate 32)).drop 1 =
+      0x64 :: 0x48 :: 0x8b :: 0x04 :: 0x25 :: 0 :: 0 :: 0 :: 0 :: 0x48 :: 0x8d :: 0x80 ::
+        (bytes32 ((S - tpStart).truncate 32) ++ 0x66 :: 0x0f :: 0x1f :: 0x44 :: 0 :: 0 :: t) := rfl
+  rw [hp, hq]
+  simp [runSeq, dec_lea_rdi3, dec_movabs_rax, dec_add_rbx_rax, dec_call_rax, dec_nop6, dec_mov_fs0, dec_lea_rax, stepIns, drop_bytes32,
+    drop_bytes64, setReg, h1, h2, hrbx, tlsGetAddr, hz, hfs]
+  refine ⟨by bv_decide, rfl, rfl, ?_, ?_⟩
+  · show e.tlsBase (σ.mem G) + σ.mem (G + 8#64) = σ.fsBase + sext32 ((S - tpStart).truncate 32)
+    rw [hII, hoff]; unfold fitsS32 at hS; unfold sext32; rw [hS]; clear h1 h2 hp hq; bv_omega
+  · intro r hr
+    obtain ⟨h0, h7⟩ := volatile_false_ne r hr
+    simp [h0, h7, hr]
 
 end Wild.C14
